@@ -227,7 +227,26 @@ pub fn supported_codes() -> Vec<u16> {
 }
 
 pub fn encode_vals(sch: &TypeSchema, vals: &[Val], out: &mut Vec<u8>) {
+    encode_vals_with(sch, vals, out, &mut |n, out, _| n.encode(out));
+}
+
+/// Same as `encode_vals`, but every embedded name is written by `wn` (which may compress).
+pub fn encode_vals_with(
+    sch: &TypeSchema,
+    vals: &[Val],
+    out: &mut Vec<u8>,
+    wn: &mut dyn FnMut(&RefName, &mut Vec<u8>, Comp),
+) {
     let mut vi = 0usize;
+    let comps: Vec<Comp> = sch
+        .fields
+        .iter()
+        .filter(|(_, k)| *k != GwType)
+        .map(|(_, k)| match k {
+            Name(c) => *c,
+            _ => Comp::Never,
+        })
+        .collect();
     for (_, k) in sch.fields {
         if *k == GwType {
             let gw = vals.iter().find_map(|v| if let Val::Gateway(g) = v { Some(g) } else { None });
@@ -249,7 +268,7 @@ pub fn encode_vals(sch: &TypeSchema, vals: &[Val], out: &mut Vec<u8>) {
             Val::I32(x) => out.extend_from_slice(&x.to_be_bytes()),
             Val::U48(x) => out.extend_from_slice(&x.to_be_bytes()[2..]),
             Val::Fixed(b) => out.extend_from_slice(&b.0),
-            Val::Name(n) => n.encode(out),
+            Val::Name(n) => wn(n, out, comps[vi - 1]),
             Val::Str(s) => {
                 out.push(s.0.len() as u8);
                 out.extend_from_slice(&s.0);
@@ -279,7 +298,7 @@ pub fn encode_vals(sch: &TypeSchema, vals: &[Val], out: &mut Vec<u8>) {
                 Gw::None => {}
                 Gw::V4(a) => out.extend_from_slice(a),
                 Gw::V6(a) => out.extend_from_slice(&a.0),
-                Gw::Domain(n) => n.encode(out),
+                Gw::Domain(n) => wn(n, out, Comp::Never),
             },
         }
     }
